@@ -1,25 +1,27 @@
-"""Debug helper: python -m sa.dump [HandlerName] - commit-sequence shapes per handler."""
+"""Debug helper: python -m sa.dump [Name|-] [repo] - commit-sequence shapes per entry."""
 import collections
 import sys
 import time
 
 from .context import get_context
-from .handlers import handler_paths, registered_handlers
+from .paths import all_paths
 from .seq import commit_seq, fmt_seq
 
 
 def main():
     ctx = get_context(sys.argv[2] if len(sys.argv) > 2 else "/repo")
     only = sys.argv[1] if len(sys.argv) > 1 and sys.argv[1] != "-" else None
-    for h in registered_handlers(ctx.prog):
-        if h.marker or (only and h.cls.name != only):
+    t = time.time()
+    res = all_paths(ctx)
+    print(f"all entries: {time.time()-t:.1f}s cached={getattr(ctx, '_paths_cached', None)}")
+    for name, r in res.items():
+        if only and name != only:
             continue
-        t = time.time()
-        it, paths = handler_paths(ctx, h)
-        shapes = collections.Counter((fmt_seq(commit_seq(s.trace)), o.kind + (":" + o.exc if o.kind == "raise" else "")) for s, o in paths)
-        print(f"== {h.cls.name}: {len(paths)} paths, {len(shapes)} shapes, infeasible={it.infeasible} {time.time()-t:.2f}s unresolved={len(it.unresolved_sensitive)}")
-        for (sq, ex), n in sorted(shapes.items()):
-            print(f"   {n:5d} {ex:28s} {sq}")
+        shapes = collections.Counter((fmt_seq(commit_seq(p.trace)), p.outcome + (":" + p.exc if p.outcome == "raise" else "")) for p in r.paths)
+        print(f"== {name}: {len(r.paths)} paths, {len(shapes)} shapes, infeasible={r.infeasible} {r.seconds:.2f}s unresolved={len(r.unresolved)}")
+        if only:
+            for (sq, ex), n in sorted(shapes.items()):
+                print(f"   {n:5d} {ex:28s} {sq}")
 
 
 main()
